@@ -43,6 +43,7 @@ type opSpec struct {
 	Phases   int    `json:"phases,omitempty"` // 1 PreGet, 2 PostGet, 4 PrePut
 	Behave   [3]int `json:"behave,omitempty"` // per phase: 0 pass, 1 replace, 2 veto; PrePut also 3: replace with the opposite deletion state
 	Target   int    `json:"target,omitempty"` // which registration to cancel
+	Twin     int    `json:"twin,omitempty"`   // hook: >0: register the Hook object of an earlier registration again
 	// records
 	V     int  `json:"v,omitempty"`
 	S     int  `json:"s,omitempty"`
@@ -263,8 +264,18 @@ type hhook struct {
 	rh     *database.RegisteredHook
 	active bool
 	expect []hcall
+	// obj: this registration reuses the Hook object of an earlier one (the same object registered a second time with
+	// another query): calls, expectations, behaviour and the id in replacements and vetoes are those of that object
+	obj *hhook
 	// generator measurement
 	matched, unmatched int
+}
+
+func (h *hhook) o() *hhook {
+	if h.obj != nil {
+		return h.obj
+	}
+	return h
 }
 
 func (h *hhook) vetoErr() error { return fmt.Errorf("c14 hook %d vetoes", h.id) }
@@ -328,7 +339,7 @@ func (h *hhook) replacement(r record.Record) record.Record {
 	if !ok {
 		return r
 	}
-	cur.S = replacedS(h.id)
+	cur.S = replacedS(h.o().id)
 	var meta *record.Meta
 	if w.Meta() != nil {
 		meta = w.Meta().Duplicate()
@@ -554,10 +565,10 @@ func (e *env) modelGet(k string, local, internal bool) getResult {
 			continue
 		}
 		h.matched++
-		h.expect = append(h.expect, hcall{phase: "PreGet", key: e.p.ns + k})
+		h.o().expect = append(h.o().expect, hcall{phase: "PreGet", key: e.p.ns + k})
 		if h.behave[0] == 2 {
 			e.nVeto++
-			return getResult{err: h.vetoErr()}
+			return getResult{err: h.o().vetoErr()}
 		}
 	}
 	st := e.store[k]
@@ -581,7 +592,7 @@ func (e *env) modelGet(k string, local, internal bool) getResult {
 			if e.mustPostGet == nil {
 				e.mustPostGet = map[int]int{}
 			}
-			e.mustPostGet[h.id]++
+			e.mustPostGet[h.o().id]++
 			stats.Class("postget_hook_on_shadow_deleted_record")
 			if h.behave[1] == 2 {
 				break
@@ -599,14 +610,14 @@ func (e *env) modelGet(k string, local, internal bool) getResult {
 			continue
 		}
 		h.matched++
-		h.expect = append(h.expect, hcall{phase: "PostGet", key: e.p.ns + k, q: cur.Q, s: cur.S})
+		h.o().expect = append(h.o().expect, hcall{phase: "PostGet", key: e.p.ns + k, q: cur.Q, s: cur.S})
 		switch h.behave[1] {
 		case 1:
-			cur.S = replacedS(h.id)
+			cur.S = replacedS(h.o().id)
 			e.nReplace++
 		case 2:
 			e.nVeto++
-			return getResult{err: h.vetoErr()}
+			return getResult{err: h.o().vetoErr()}
 		}
 	}
 	if !cur.permits(local, internal) {
@@ -626,16 +637,16 @@ func (e *env) modelPrePut(k string, cur srec) (srec, error) {
 			continue
 		}
 		h.matched++
-		h.expect = append(h.expect, hcall{phase: "PrePut", key: e.p.ns + k, q: cur.Q, s: cur.S})
+		h.o().expect = append(h.o().expect, hcall{phase: "PrePut", key: e.p.ns + k, q: cur.Q, s: cur.S})
 		switch h.behave[2] {
 		case 1:
-			cur.S = replacedS(h.id)
+			cur.S = replacedS(h.o().id)
 			e.nReplace++
 		case 2:
 			e.nVeto++
-			return cur, h.vetoErr()
+			return cur, h.o().vetoErr()
 		case 3:
-			cur.S = replacedS(h.id)
+			cur.S = replacedS(h.o().id)
 			cur.Deleted = !cur.Deleted
 			cur.TTL = 0
 			e.nReplace++
@@ -712,7 +723,15 @@ func (e *env) checkStep() {
 	}
 	// hooks
 	for _, h := range e.hooks {
+		if h.obj != nil {
+			continue // judged with the object it shares
+		}
 		who := fmt.Sprintf("hook #%d (query %s, phases=%d, behaviour=%v, active=%v)", h.id, h.reg, h.phases, h.behave, h.active)
+		for _, tw := range e.hooks {
+			if tw.obj == h {
+				who += fmt.Sprintf(" [the same Hook object is registered again as #%d with query %s, active=%v]", tw.id, tw.reg, tw.active)
+			}
+		}
 		got := h.takeCalls()
 		want := h.expect
 		h.expect = nil
@@ -912,6 +931,11 @@ func (e *env) exec(op opSpec) {
 		}
 		reg, _ := e.regFor(op)
 		h := &hhook{id: len(e.hooks), reg: reg, phases: op.Phases & 7, behave: op.Behave, dbName: e.p.dbName, active: true}
+		if op.Twin > 0 && len(e.hooks) > 0 {
+			first := e.hooks[(op.Twin-1)%len(e.hooks)].o()
+			h.obj, h.phases, h.behave = first, first.phases, first.behave
+			stats.Class("same_hook_object_registered_again_with_another_query")
+		}
 		if h.phases == 0 {
 			h.phases = 4
 		}
@@ -923,7 +947,7 @@ func (e *env) exec(op opSpec) {
 		}
 		e.safely("RegisterHook", func() {
 			var err error
-			h.rh, err = database.RegisterHook(reg.q, h)
+			h.rh, err = database.RegisterHook(reg.q, h.o())
 			if err != nil {
 				e.failf("RegisterHook(%s) failed: %v", reg, err)
 			}
@@ -1147,11 +1171,11 @@ func (e *env) wouldVetoPrePut(k string, cur srec) bool {
 		}
 		switch h.behave[2] {
 		case 1:
-			cur.S = replacedS(h.id)
+			cur.S = replacedS(h.o().id)
 		case 2:
 			return true
 		case 3:
-			cur.S = replacedS(h.id)
+			cur.S = replacedS(h.o().id)
 			cur.Deleted = !cur.Deleted
 			cur.TTL = 0
 		}
